@@ -14,6 +14,7 @@ pub enum Src {
     Mutate,
     Corpus,
     Subst,
+    Canary,
 }
 impl Src {
     pub fn name(self) -> &'static str {
@@ -25,6 +26,7 @@ impl Src {
             Src::Mutate => "g_mutate",
             Src::Corpus => "g_corpus",
             Src::Subst => "g_subst",
+            Src::Canary => "g_canary",
         }
     }
 }
@@ -65,8 +67,36 @@ impl StreamCfg {
     }
 }
 
+/// Well-formed identifiers of every shape, re-parsed after every third input of the stream. A parse
+/// must not depend on what was parsed before: if an earlier input (in particular a *rejected* one)
+/// leaves state behind - a scratch buffer that is only emptied on the success path, a memo - the
+/// canary that follows it comes out wrong and the ordinary per-input oracle reports it.
+pub const CANARIES: &[&str] = &[
+    "de-1996",
+    "ca-ES-valencia",
+    "en-u-nu-thai",
+    "en-u-foo-ca-buddhist",
+    "en-t-de-k0-dvorak",
+    "und-Latn-x-priv",
+    "sr-Cyrl-RS-u-ca-gregory-t-en-h0-hybrid-x-a",
+    "zh-Hant-TW",
+];
+
 /// Drive every input of this shard's share of the stream through `f`.
-pub fn byte_stream(ctx: &mut Ctx, cfg: &StreamCfg, f: &mut dyn FnMut(&mut Ctx, &[u8], Src)) {
+pub fn byte_stream(ctx: &mut Ctx, cfg: &StreamCfg, f0: &mut dyn FnMut(&mut Ctx, &[u8], Src)) {
+    let mut tick = 0usize;
+    let mut with_canary = |ctx: &mut Ctx, b: &[u8], src: Src| {
+        ctx.remember(b);
+        f0(ctx, b, src);
+        tick += 1;
+        if tick % 3 == 0 {
+            let c = CANARIES[(tick / 3) % CANARIES.len()].as_bytes();
+            mon::begin_case(c);
+            ctx.remember(c);
+            f0(ctx, c, Src::Canary);
+        }
+    };
+    let f: &mut dyn FnMut(&mut Ctx, &[u8], Src) = &mut with_canary;
     let (shard, n) = (ctx.shard, ctx.nshards);
     if cfg.wide_len > 0 {
         gen::enum_seq(gen::WIDE, cfg.wide_len, shard, n, &mut |b| {
